@@ -25,6 +25,8 @@ int yk_is_live(const void* p);
 // the hooks, following the recorded schedule)
 void yk_thread(std::uint32_t i, void (*fn)());
 void yk_run_threads(std::uint32_t ctx);
+// schedule template (optional): only the threads in `mask` may run in symbolic context c (pre-emption points stay symbolic)
+void yk_allow_ctx(std::uint32_t c, std::uint32_t mask);
 std::uint32_t yk_thread_done(std::uint32_t i);
 std::uint32_t yk_ctx_of_finish(std::uint32_t i);
 void yk_stop(void);                            // end of the explored run (CBMC: assume(false); native: exit(0))                  // p is a block obtained through operator new and not yet deleted
